@@ -1,6 +1,7 @@
 package wiresim
 
 import (
+	"bytes"
 	"encoding/binary"
 	"fmt"
 	"io"
@@ -252,6 +253,70 @@ func execHandshake(t *testing.T, plan *simkit.Plan) *simkit.Result {
 						s.Violate("C34", "mismatch-accepted", "server:"+pt.name, "the server accepted a client whose %s differs", pt.name)
 					}
 				}
+			}
+		}
+		// D2. peers whose magic number is wrong in more than one byte: every
+		// other arrangement of the right bytes (one of them is the magic number
+		// of the peer's own role: a server talking to a server), the same
+		// alteration applied to two bytes, alterations of all three bytes that
+		// cancel each other out under exclusive-or, and - for the server - a peer
+		// that merely echoes what it receives (a looped-back stream).
+		x, y := byte(c["xor"]), byte(c["xor"]*7+1)
+		if y == 0 || y == x {
+			y = x ^ 0x5a
+		}
+		type alt struct {
+			name string
+			f    func(m []byte) []byte
+		}
+		alts := []alt{
+			{"perm-021", func(m []byte) []byte { return []byte{m[0], m[2], m[1]} }},
+			{"perm-102", func(m []byte) []byte { return []byte{m[1], m[0], m[2]} }},
+			{"perm-120", func(m []byte) []byte { return []byte{m[1], m[2], m[0]} }},
+			{"perm-201", func(m []byte) []byte { return []byte{m[2], m[0], m[1]} }},
+			{"perm-210", func(m []byte) []byte { return []byte{m[2], m[1], m[0]} }},
+			{"xor-01", func(m []byte) []byte { return []byte{m[0] ^ x, m[1] ^ x, m[2]} }},
+			{"xor-02", func(m []byte) []byte { return []byte{m[0] ^ x, m[1], m[2] ^ x} }},
+			{"xor-12", func(m []byte) []byte { return []byte{m[0], m[1] ^ x, m[2] ^ x} }},
+			{"xor-012", func(m []byte) []byte { return []byte{m[0] ^ x, m[1] ^ y, m[2] ^ x ^ y} }},
+		}
+		for _, a := range alts {
+			if s.Violated() {
+				return
+			}
+			s.Count("enum.cases", 2)
+			if magic := a.f(refServerMagic); !bytes.Equal(magic, refServerMagic) {
+				cl, _ := run("fake-server-magic-"+a.name, simkit.LinkOpts{}, func(st io.ReadWriteCloser) { fakeServer(st, magic, refVersion(0, 0, 0)) }, nil)
+				if cl.err == nil {
+					s.Violate("C34", "mismatch-accepted", "client:magic-"+a.name, "the client accepted a server whose magic number is % x instead of % x", magic, refServerMagic)
+				}
+			}
+			if magic := a.f(refClientMagic); !bytes.Equal(magic, refClientMagic) {
+				_, sv := run("fake-client-magic-"+a.name, simkit.LinkOpts{}, nil, func(st io.ReadWriteCloser) { fakeClient(st, magic, refVersion(0, 0, 0)) })
+				if sv.err == nil {
+					s.Violate("C34", "mismatch-accepted", "server:magic-"+a.name, "the server accepted a client whose magic number is % x instead of % x", magic, refClientMagic)
+				}
+			}
+		}
+		if !s.Violated() {
+			s.Count("enum.cases", 1)
+			_, sv := run("echo-peer", simkit.LinkOpts{}, nil, func(st io.ReadWriteCloser) {
+				buf := make([]byte, 64)
+				for {
+					n, err := st.Read(buf)
+					if n > 0 {
+						if _, werr := st.Write(buf[:n]); werr != nil {
+							break
+						}
+					}
+					if err != nil {
+						break
+					}
+				}
+				st.Close()
+			})
+			if sv.err == nil {
+				s.Violate("C34", "mismatch-accepted", "server:echo", "the server accepted a peer that only echoed the server's own handshake bytes back")
 			}
 		}
 		// E. a conforming simulated peer built from the documented constants is
